@@ -1073,6 +1073,10 @@ class Tr:
         cn = '__d%d' % self.tmpn
         s = self.with_pre(lambda: self.e(ini[0]), ind)
         self.emit('%s %s = %s;' % (ct.c, cn, s), ind)
+        if ct.klass in ('tcr', 'fcr'):
+            for b, f in zip(binds, ('ptr', 'ec')):
+                self.bindings[b['id']] = '%s.%s' % (cn, f)
+            return
         if ct.klass != 'pair':
             self.bad('structured binding of non-pair', v)
         for b, f in zip(binds, ('first', 'second')):
